@@ -12,33 +12,56 @@ import (
 
 type BasicPrivateIssuer struct {
 	tokenKey *oprf.PrivateKey
+
+	// Serialized key pair. circl's P-384 group elements normalize their
+	// coordinates in place whenever they are marshalled (which proof generation
+	// does with the public key), so a key object must not be shared between
+	// concurrent calls: each call works on its own copy decoded from these bytes.
+	tokenKeyEnc  []byte
+	publicKeyEnc []byte
 }
 
 func NewBasicPrivateIssuer(key *oprf.PrivateKey) *BasicPrivateIssuer {
-	// The VOPRF key caches its public key on first use without synchronization.
-	// Compute it here so that the issuer is read-only once constructed.
-	key.Public()
-
-	return &BasicPrivateIssuer{
-		tokenKey: key,
-	}
-}
-
-func (i *BasicPrivateIssuer) TokenKey() *oprf.PublicKey {
-	return i.tokenKey.Public()
-}
-
-func (i *BasicPrivateIssuer) TokenKeyID() []byte {
-	pkIEnc, err := i.tokenKey.Public().MarshalBinary()
+	tokenKeyEnc, err := key.MarshalBinary()
 	if err != nil {
 		panic(err)
 	}
-	keyID := sha256.Sum256(pkIEnc)
+	publicKeyEnc, err := key.Public().MarshalBinary()
+	if err != nil {
+		panic(err)
+	}
+
+	return &BasicPrivateIssuer{
+		tokenKey:     key,
+		tokenKeyEnc:  tokenKeyEnc,
+		publicKeyEnc: publicKeyEnc,
+	}
+}
+
+// callTokenKey returns a private key object that is not shared with any other call.
+func (i BasicPrivateIssuer) callTokenKey() *oprf.PrivateKey {
+	key := new(oprf.PrivateKey)
+	if err := key.UnmarshalBinary(oprf.SuiteP384, i.tokenKeyEnc); err != nil {
+		panic(err)
+	}
+	return key
+}
+
+func (i *BasicPrivateIssuer) TokenKey() *oprf.PublicKey {
+	key := new(oprf.PublicKey)
+	if err := key.UnmarshalBinary(oprf.SuiteP384, i.publicKeyEnc); err != nil {
+		panic(err)
+	}
+	return key
+}
+
+func (i *BasicPrivateIssuer) TokenKeyID() []byte {
+	keyID := sha256.Sum256(i.publicKeyEnc)
 	return keyID[:]
 }
 
 func (i BasicPrivateIssuer) Evaluate(req *BasicPrivateTokenRequest) ([]byte, error) {
-	server := oprf.NewVerifiableServer(oprf.SuiteP384, i.tokenKey)
+	server := oprf.NewVerifiableServer(oprf.SuiteP384, i.callTokenKey())
 
 	e := group.P384.NewElement()
 	err := e.UnmarshalBinary(req.BlindedReq)
@@ -75,7 +98,7 @@ func (i BasicPrivateIssuer) Type() uint16 {
 }
 
 func (i BasicPrivateIssuer) Verify(token tokens.Token) error {
-	server := oprf.NewVerifiableServer(oprf.SuiteP384, i.tokenKey)
+	server := oprf.NewVerifiableServer(oprf.SuiteP384, i.callTokenKey())
 
 	tokenInput := token.AuthenticatorInput()
 	output, err := server.FullEvaluate(tokenInput)
